@@ -8,6 +8,8 @@ pub const NUMS_POOL: &[u64] = &[0, 0, 0, 1, 1, 1, 2, 2, 3, 9, 10, 11, 99, 100, 1
 pub const ID_ATOMS: &[&str] = &[
     "0", "1", "2", "9", "10", "a", "A", "b", "alpha", "beta", "rc", "-", "--", "a-", "-a", "0a", "a0", "1a", "x", "X", "18446744073709551615",
     "18446744073709551614", "pre", "z", "Z", "0-0", "-0", "-1",
+    // texts other number syntaxes would accept (float / exponent / radix / separators / specials)
+    "1e5", "2E10", "7e-3", "0e0", "1e", "0x10", "0b1", "0o7", "1f", "1d", "inf", "nan", "NaN", "infinity", "1-0", "00a", "0-", "9007199254740993", "900719925474099", "900719925474100",
 ];
 
 pub fn rand_ids(r: &mut Rng, max: usize) -> Vec<String> {
